@@ -128,6 +128,10 @@ func (dem *DepthExecutorManager) merge(resp *DepthExecutorResponse) error {
 				v2, ok2 := dem.result[key].(map[string]interface{})
 				if ok1 && ok2 {
 					dem.result[key] = mergeMaps(v2, v1)
+				} else if _, answered := dem.result[key]; answered && value == nil {
+					// the same key asked of several services (a node lookup): the one that does not
+					// know the entity answers null, which must not wipe out what another one answered
+					continue
 				} else {
 					dem.result[key] = value
 				}
